@@ -69,9 +69,21 @@ def generate(rng, tier):
     cases = []
     thorough = tier == "thorough"
     specs = specs_pool(rng, 30 if thorough else 8)
-    for k in range(500 if thorough else 80):
+    shaped = 150 if thorough else 30
+    for k in range((500 if thorough else 120) + shaped):
         sp = rng.choice(specs)
-        nodes = fix_widths(E.rand_doc(rng, sp, big=False, unknown_ok=False))
+        if k < shaped:
+            # a known-size master around an unknown-size master with several children and followers: junk inside the inner one
+            sp = E.base_spec()
+            inner = [E.Node(E.rand_value_tag(rng, E.CHILD, "B", big=False)) for _ in range(rng.randint(2, 5))]
+            mid = E.Node(("m", E.PARENT), "u", inner + ([E.Node(("m", E.SUB), rng.choice([None, "u"]), [E.Node(("u", E.LEAFU, 5))])] if rng.random() < 0.5 else []))
+            outer_kids = [mid] + [E.Node(("u", E.INT, rng.randrange(300))) for _ in range(rng.randint(1, 3))]
+            nodes0 = [E.Node(("m", E.ROOT), rng.choice([None, None, 4]), outer_kids)]
+        else:
+            nodes0 = None
+        # known-size documents and, half of the time, documents mixing in unknown-size masters (recovery must then enlarge the
+        # known-size masters *outside* an unknown-size one as well)
+        nodes = nodes0 if nodes0 is not None else fix_widths(E.rand_doc(rng, sp, big=False, unknown_ok=(k % 2 == 1), unknown_p=0.5))
         if not nodes:
             continue
         items = []
@@ -114,9 +126,20 @@ def _end_before(lay, tid, start_off, b):
     """is the End of the master (tid, start) emitted before the junk position b in the undamaged parse? i.e. its range ends at or
     before b — but an End at exactly b is emitted lazily, on the step that reads the next tag, which after the damage is the error step:
     the code queues it before the failing read, so it still precedes the error"""
-    for e in lay:
+    for k, e in enumerate(lay):
         if e[0] == "e" and e[1] == tid and e[2] == start_off:
-            return e[4] <= b
+            if e[3] or e[4] < b:
+                return e[4] <= b
+            # an unknown-size master whose content ends exactly at the junk: its End is only revealed by what follows,
+            # unless an enclosing known-size master is exhausted at the same point (then everything inside it goes with it)
+            if e[4] != b:
+                return False
+            for f in lay[k + 1:]:
+                if f[0] != "e" or f[4] != e[4]:
+                    break
+                if f[3]:
+                    return True
+            return False
     return False
 
 
